@@ -221,7 +221,7 @@ def run_real(gens_spec, annotate=False):
         stdin=None, add_annotations=bool(annotate), add_implicit=False, do_files_download=False, gens=dg, fetched_packages={},
         failed_packages={}, device_count=1, do_print_perf=False)
     try:
-        r = ann_gen._old_new_per_device(ctx, dev, None)
+        r = env.call_private(ann_gen, "_old_new_per_device", ctx, dev, None)
     except GeneratorError as e:
         cause = e.__cause__
         return ("generator-error", "%s: %s" % (type(cause).__name__, cause))
